@@ -141,7 +141,7 @@ theorem inv1_step (f : Sem) (j : Job) (cl : Cluster) (s s' : Sys) (st : Step)
       cases hs
       have md : ∀ (l : List Event) (e : Env), (markDelivered e l).queued = e.queued ∧
           (markDelivered e l).dispatchedE = e.dispatchedE ∧ (markDelivered e l).viol = e.viol ∧
-          (markDelivered e l).pending = e.pending := by
+          (markDelivered e l).pending = e.pending ∧ (markDelivered e l).trimmed = e.trimmed := by
         intro l
         induction l with
         | nil => intro e; simp [markDelivered]
@@ -150,29 +150,33 @@ theorem inv1_step (f : Sem) (j : Job) (cl : Cluster) (s s' : Sys) (st : Step)
           simp only [markDelivered, List.foldl_cons] at ih ⊢
           cases x <;> simp [ih]
       have hsub := takeEvents_sub evs s.env.pending pend htk
-      refine h.congr h.once rfl ?_ rfl rfl rfl ?_ ?_ (fun _ _ _ => htodo) ?_ h.no_double_add
+      refine h.congr h.once rfl ?_ rfl rfl rfl ?_ ?_ (fun _ _ _ => htodo) ?_ h.no_double_add ?_
       · simp [(md _ _).2.1]
       · simp [(md _ _).1]
       · intro w ds he
-        simp only [(md _ _).2.2.2] at he
+        simp only [(md _ _).2.2.2.1] at he
         exact List.mem_append.mpr (Or.inr (hsub _ he))
       · intro m _ hv; simpa [(md _ _).2.2.1] using hv
+      · simp [(md _ _).2.2.2.2]
   | env es =>
     simp only [step] at hs
     split at hs; · cases hs
+    rw [envStepP_eq f j s.env es h.no_trim] at hs
     cases he : envStep f j s.env es with
     | none => simp [he] at hs
     | some e' =>
       simp only [he, Option.map_some, Option.some.injEq] at hs
       subst hs
       obtain ⟨t1, t2, t3⟩ := envStep_tier1 f j s.env e' es he
+      have htr := (envStep_trimmed f j s.env e' es he).1
       have hfl : ∀ w t, Sys.inFlight { s with env := e' } w t ↔ s.inFlight w t := by
         intro w t; simp [Sys.inFlight, Sys.todoPairs]
       rcases t3 with ⟨w, t, hq, hq', hpend⟩ | ⟨hq', hpend⟩
       · refine ⟨h.once, ?_, h.idle_nodup, ?_, h.idle_known, ?_, ?_, ?_, ?_, ?_, ?_, h.todo_phase, h.todo_nodup,
           h.todo_not_ongoing, t2 _ (Or.inl rfl) h.no_dd, t2 _ (Or.inr (Or.inl rfl)) h.no_busy,
           t2 _ (Or.inr (Or.inr (Or.inl rfl))) h.no_unknown, t2 _ (Or.inr (Or.inr (Or.inr rfl))) h.no_gpu,
-          h.no_double_add⟩
+          h.no_double_add, fun w' t' hq2 => by
+            simp only [hq'] at hq2; simp only [htr]; exact h.no_trim w' t' (List.mem_of_mem_erase hq2)⟩
         · intro t'; simp only [t1]; exact h.disp_eq t'
         · intro w' hw' t'; rw [hfl]; exact h.idle_free w' hw' t'
         · intro w' t' hf; exact h.flight_known w' t' ((hfl w' t').mp hf)
@@ -202,7 +206,7 @@ theorem inv1_step (f : Sem) (j : Job) (cl : Cluster) (s s' : Sys) (st : Step)
               obtain ⟨rfl, rfl⟩ := heq
               rw [htask]
               exact List.Nodup.not_mem_erase h.queued_nodup
-      · refine h.congr h.once rfl t1 rfl rfl rfl hq' ?_ (fun h1 h2 h3 => h.todo_phase h1 h2 h3) t2 h.no_double_add
+      · refine h.congr h.once rfl t1 rfl rfl rfl hq' ?_ (fun h1 h2 h3 => h.todo_phase h1 h2 h3) t2 h.no_double_add htr
         intro w ds hev
         simp only [List.mem_append] at hev ⊢
         rcases hev with hev | hev
@@ -220,12 +224,13 @@ theorem inv1_step (f : Sem) (j : Job) (cl : Cluster) (s s' : Sys) (st : Step)
     · cases hs
     · rename_i ds hst rest hq
       cases hs
-      have nt := applyCmd_queued_notTask j cl s.env (.fetch ds hst) (by intro w t; simp)
+      have nt := applyCmd_queued_notTask j cl s.env (.fetch ds hst) (by intro w t pb; simp)
       refine h.congr (h.once.congr (by simp) (by simp) (by simp) (by simp)) (by simp) nt.2 (by simp) (by simp) rfl
         nt.1 ?_ (fun _ _ _ => htodo) ?_ h.no_double_add
+        (applyCmd_trimmed_notTask j cl s.env (.fetch ds hst) (by intro w t pb; simp)).1
       · intro w d he; simpa [applyCmd] using he
       · intro m hm hv
-        exact applyCmd_viol_c02_notTask j cl s.env _ (by intro w t; simp) m hm hv
+        exact applyCmd_viol_c02_notTask j cl s.env _ (by intro w t pb; simp) m hm hv
   | flushP1 =>
     simp only [step] at hs
     split at hs; · cases hs
@@ -243,14 +248,16 @@ theorem inv1_step (f : Sem) (j : Job) (cl : Cluster) (s s' : Sys) (st : Step)
         simp only [Err.raised.injEq] at this
         refine ⟨h.once, h.disp_eq, h.idle_nodup, h.idle_free, h.idle_known, h.flight_known, h.flight_disp,
           h.queued_flight, h.queued_nodup, h.ev_disp, h.ev_not_queued, ?_, h.todo_nodup, h.todo_not_ongoing,
-          h.no_dd, h.no_busy, h.no_unknown, h.no_gpu, ?_⟩
+          h.no_dd, h.no_busy, h.no_unknown, h.no_gpu, ?_, h.no_trim⟩
         · intro _ _ _; exact htodo
         · simp [Sys.crash, this]
       · rename_i c2 cmds hph
         cases hs
         have hcm := purgeHosts_cmds cl ds cl.hosts s.ctl c2 cmds hph
         have nt := applyCmds_notTask j cl cmds s.env (by
-          intro cmd hm w t; obtain ⟨hh, rfl⟩ := hcm cmd hm; simp)
+          intro cmd hm w t pb; obtain ⟨hh, rfl⟩ := hcm cmd hm; simp)
+        have ntr := applyCmds_trimmed_notTask j cl cmds s.env (by
+          intro cmd hm w t pb; obtain ⟨hh, rfl⟩ := hcm cmd hm; simp)
         have hpend : (applyCmds j cl s.env cmds).pending = s.env.pending := by
           clear nt
           have : ∀ (l : List Cmd) (e : Env), (∀ cmd ∈ l, ∃ h, cmd = Cmd.purge h ds) →
@@ -265,7 +272,7 @@ theorem inv1_step (f : Sem) (j : Job) (cl : Cluster) (s s' : Sys) (st : Step)
               obtain ⟨hh, rfl⟩ := hl x (by simp)
               simp [applyCmd]
           exact this cmds s.env hcm
-        refine h.congr (h.once.congr ?_ ?_ ?_ ?_) ?_ nt.2.1 ?_ ?_ rfl nt.1 ?_ (fun _ _ _ => htodo) nt.2.2 h.no_double_add
+        refine h.congr (h.once.congr ?_ ?_ ?_ ?_) ?_ nt.2.1 ?_ ?_ rfl nt.1 ?_ (fun _ _ _ => htodo) nt.2.2 h.no_double_add ntr.1
         · simpa using purgeHosts_computable _ _ _ _ _ _ hph
         · simpa using purgeHosts_dispatched _ _ _ _ _ _ hph
         · simpa using purgeHosts_tracked _ _ _ _ _ _ hph
@@ -311,7 +318,7 @@ theorem inv1_step (f : Sem) (j : Job) (cl : Cluster) (s s' : Sys) (st : Step)
             · cases he
         refine ⟨h.once, h.disp_eq, h.idle_nodup, h.idle_free, h.idle_known, h.flight_known, h.flight_disp,
           h.queued_flight, h.queued_nodup, h.ev_disp, h.ev_not_queued, ?_, h.todo_nodup, h.todo_not_ongoing,
-          h.no_dd, h.no_busy, h.no_unknown, h.no_gpu, ?_⟩
+          h.no_dd, h.no_busy, h.no_unknown, h.no_gpu, ?_, h.no_trim⟩
         · intro _ _ h3; simp [Sys.crash] at h3
         · simp only [Sys.crash, ne_eq, Option.some.injEq]; exact hne
       · rename_i c2 hpl
@@ -325,7 +332,7 @@ theorem inv1_step (f : Sem) (j : Job) (cl : Cluster) (s s' : Sys) (st : Step)
         have hnd := h.todo_nodup
         simp only [Sys.todoPairs, htd, List.map_cons, List.nodup_cons] at hnd
         refine ⟨h.once.congr f1 f2 f3 f4, ?_, ?_, ?_, ?_, ?_, ?_, ?_, h.queued_nodup, ?_, h.ev_not_queued, ?_, ?_, ?_,
-          h.no_dd, h.no_busy, h.no_unknown, h.no_gpu, h.no_double_add⟩
+          h.no_dd, h.no_busy, h.no_unknown, h.no_gpu, h.no_double_add, h.no_trim⟩
         · intro t; simp only [f2]; exact h.disp_eq t
         · simp only [f5]; exact h.idle_nodup
         · intro w hw t; rw [hfl]; simp only [f5] at hw; exact h.idle_free w hw t
@@ -392,7 +399,7 @@ theorem inv1_step (f : Sem) (j : Job) (cl : Cluster) (s s' : Sys) (st : Step)
             · cases he
         refine ⟨h.once, h.disp_eq, h.idle_nodup, h.idle_free, h.idle_known, h.flight_known, h.flight_disp,
           h.queued_flight, h.queued_nodup, ?_, ?_, ?_, h.todo_nodup, h.todo_not_ongoing, h.no_dd, h.no_busy,
-          h.no_unknown, h.no_gpu, ?_⟩
+          h.no_unknown, h.no_gpu, ?_, h.no_trim⟩
         · intro w ds he2; exact h.ev_disp w ds (hevsub w ds he2)
         · intro w ds he2; exact h.ev_not_queued w ds (hevsub w ds he2)
         · intro _ _ _; exact htodo
@@ -416,7 +423,7 @@ theorem inv1_step (f : Sem) (j : Job) (cl : Cluster) (s s' : Sys) (st : Step)
             obtain ⟨ds, rfl, rfl⟩ := hevw
             exact h.ev_not_queued w ds (by rw [hib]; simp)
           refine ⟨ho, ?_, ?_, ?_, ?_, ?_, ?_, ?_, h.queued_nodup, ?_, ?_, ?_, h.todo_nodup, ?_, h.no_dd, h.no_busy,
-            h.no_unknown, h.no_gpu, h.no_double_add⟩
+            h.no_unknown, h.no_gpu, h.no_double_add, h.no_trim⟩
           · intro t'; simp only [hd]; exact h.disp_eq t'
           · simp only [hi]
             split
@@ -505,7 +512,7 @@ theorem inv1_step (f : Sem) (j : Job) (cl : Cluster) (s s' : Sys) (st : Step)
         · cases he
       refine ⟨h.once, h.disp_eq, h.idle_nodup, h.idle_free, h.idle_known, h.flight_known, h.flight_disp,
         h.queued_flight, h.queued_nodup, h.ev_disp, h.ev_not_queued, ?_, h.todo_nodup, h.todo_not_ongoing,
-        h.no_dd, h.no_busy, h.no_unknown, h.no_gpu, ?_⟩
+        h.no_dd, h.no_busy, h.no_unknown, h.no_gpu, ?_, h.no_trim⟩
       · intro _ _ h3; simp [Sys.crash] at h3
       · simp only [Sys.crash, ne_eq, Option.some.injEq]; exact hne
     · rename_i c2 prep has
@@ -513,12 +520,13 @@ theorem inv1_step (f : Sem) (j : Job) (cl : Cluster) (s s' : Sys) (st : Step)
       obtain ⟨ho, hd0, hd', hcomp, hidle, hi', hon', hgpu⟩ := once_assignOne j cl s.ctl c2 a prep h.once has
       -- the commands: transmits then the task sequence
       have hcm : ∀ cmd ∈ (prep.filter (fun p => p.2 != a.worker.host)).map (fun p => Cmd.transmit p.1 p.2 a.worker.host),
-          ∀ w t, cmd ≠ .taskSeq w t := by
-        intro cmd hm w t
+          ∀ w t pb, cmd ≠ .taskSeq w t pb := by
+        intro cmd hm w t pb
         simp only [List.mem_map] at hm
         obtain ⟨p, _, rfl⟩ := hm
         simp
       have nt := applyCmds_notTask j cl _ s.env hcm
+      have ntr := applyCmds_trimmed_notTask j cl _ s.env hcm
       have hpend : ∀ (l : List Cmd) (e : Env), (applyCmds j cl e l).pending = e.pending := by
         intro l
         induction l with
@@ -528,13 +536,17 @@ theorem inv1_step (f : Sem) (j : Job) (cl : Cluster) (s s' : Sys) (st : Step)
           simp only [applyCmds, List.foldl_cons] at ih ⊢
           rw [ih]
           cases x <;> simp [applyCmd]
-      have henv : applyCmds j cl s.env (actCmds a prep) =
+      have henv : applyCmds j cl s.env (actCmds j a prep) =
           applyCmd j cl (applyCmds j cl s.env ((prep.filter (fun p => p.2 != a.worker.host)).map
-            (fun p => Cmd.transmit p.1 p.2 a.worker.host))) (.taskSeq a.worker a.task) := by
+            (fun p => Cmd.transmit p.1 p.2 a.worker.host))) (.taskSeq a.worker a.task (asgOutputs j a.task)) := by
         simp [applyCmds, actCmds, List.foldl_append]
       generalize hE : applyCmds j cl s.env ((prep.filter (fun p => p.2 != a.worker.host)).map
-            (fun p => Cmd.transmit p.1 p.2 a.worker.host)) = e1 at henv nt
+            (fun p => Cmd.transmit p.1 p.2 a.worker.host)) = e1 at henv nt ntr
       have hq1 : e1.queued = s.env.queued := nt.1
+      have htr2 : (applyCmd j cl e1 (.taskSeq a.worker a.task (asgOutputs j a.task))).trimmed = upd s.env.trimmed a.task false := by
+        have hcov : publishCovers j a.task (asgOutputs j a.task) = true := by
+          simp [publishCovers, asgOutputs]
+        simp [applyCmd, ntr.1, hcov]
       have hde1 : e1.dispatchedE = s.env.dispatchedE := nt.2.1
       have hpe1 : e1.pending = s.env.pending := by rw [← hE]; exact hpend _ _
       have hnotfl : ∀ t, ¬ s.inFlight a.worker t := h.idle_free a.worker hidle
@@ -543,13 +555,13 @@ theorem inv1_step (f : Sem) (j : Job) (cl : Cluster) (s s' : Sys) (st : Step)
         intro w hf
         have := h.flight_disp w a.task hf
         omega
-      have hq2 : (applyCmd j cl e1 (.taskSeq a.worker a.task)).queued = s.env.queued ++ [(a.worker, a.task)] := by
+      have hq2 : (applyCmd j cl e1 (.taskSeq a.worker a.task (asgOutputs j a.task))).queued = s.env.queued ++ [(a.worker, a.task)] := by
         simp [applyCmd, hq1]
-      have hde2 : (applyCmd j cl e1 (.taskSeq a.worker a.task)).dispatchedE = upd s.env.dispatchedE a.task (s.env.dispatchedE a.task + 1) := by
+      have hde2 : (applyCmd j cl e1 (.taskSeq a.worker a.task (asgOutputs j a.task))).dispatchedE = upd s.env.dispatchedE a.task (s.env.dispatchedE a.task + 1) := by
         simp [applyCmd, hde1]
-      have hpe2 : (applyCmd j cl e1 (.taskSeq a.worker a.task)).pending = s.env.pending := by
+      have hpe2 : (applyCmd j cl e1 (.taskSeq a.worker a.task (asgOutputs j a.task))).pending = s.env.pending := by
         simp [applyCmd, hpe1]
-      have hfl : ∀ w t, Sys.inFlight { s with ctl := c2, env := applyCmds j cl s.env (actCmds a prep), todo := s.todo ++ [(a, prep)] } w t ↔
+      have hfl : ∀ w t, Sys.inFlight { s with ctl := c2, env := applyCmds j cl s.env (actCmds j a prep), todo := s.todo ++ [(a, prep)] } w t ↔
           (s.inFlight w t ∨ (w, t) = (a.worker, a.task)) := by
         intro w t
         simp only [Sys.inFlight, Sys.todoPairs, hon', List.map_append, List.map_cons, List.map_nil, List.mem_append,
@@ -564,7 +576,7 @@ theorem inv1_step (f : Sem) (j : Job) (cl : Cluster) (s s' : Sys) (st : Step)
           · exact Or.inr (Or.inl h1)
           · exact Or.inr (Or.inr h1)
       have hviol : ∀ m, (m = "C02 double-dispatch" ∨ m = "C02 busy-worker" ∨ m = "C02 unknown-worker" ∨ m = "C02 gpu") →
-          m ∉ s.env.viol → m ∉ (applyCmd j cl e1 (.taskSeq a.worker a.task)).viol := by
+          m ∉ s.env.viol → m ∉ (applyCmd j cl e1 (.taskSeq a.worker a.task (asgOutputs j a.task))).viol := by
         intro m hm hv
         have hv1 := nt.2.2 m hm hv
         rw [mem_viol_taskSeq]
@@ -584,7 +596,7 @@ theorem inv1_step (f : Sem) (j : Job) (cl : Cluster) (s s' : Sys) (st : Step)
       rw [henv]
       refine ⟨ho, ?_, ?_, ?_, ?_, ?_, ?_, ?_, ?_, ?_, ?_, ?_, ?_, ?_, hviol _ (Or.inl rfl) h.no_dd,
         hviol _ (Or.inr (Or.inl rfl)) h.no_busy, hviol _ (Or.inr (Or.inr (Or.inl rfl))) h.no_unknown,
-        hviol _ (Or.inr (Or.inr (Or.inr rfl))) h.no_gpu, h.no_double_add⟩
+        hviol _ (Or.inr (Or.inr (Or.inr rfl))) h.no_gpu, h.no_double_add, ?_⟩
       · intro t
         simp only [hde2, hd']
         by_cases ht : t = a.task
@@ -650,5 +662,14 @@ theorem inv1_step (f : Sem) (j : Job) (cl : Cluster) (s s' : Sys) (st : Step)
         rcases hp' with hp' | rfl
         · exact h.todo_not_ongoing p hp'
         · intro hin; exact hnf _ (Or.inl hin)
+      · intro w t hq
+        simp only [hq2, List.mem_append, List.mem_singleton] at hq
+        simp only [htr2]
+        by_cases ht : t = a.task
+        · subst ht; simp
+        · rw [upd_other _ _ _ _ ht]
+          rcases hq with hq | hq
+          · exact h.no_trim w t hq
+          · simp only [Prod.mk.injEq] at hq; exact absurd hq.2 ht
 
 end EkwVerif.Ctrl
